@@ -90,7 +90,8 @@ Definition create_fracs_tail (dmin flow dlow fnext dnext : T) (rest : gsd) (poin
                                (nsub N fnext flow)) in
         ([], pow10 logd0, nint N 0%Z) in
     let num_divs := (num_fracs - points_left - 1)%Z in
-    let between_points := ntrunc N (nadd N (ndiv N (nint N num_divs) (nint N points_left)) (nlit N 5%Z 10%positive)) in
+    (* max(-(-num_divs // points_left), 0): the ceiling of num_divs / points_left, floored at 0 (Python integer arithmetic) *)
+    let between_points := Z.max (- ((- num_divs) / points_left)) 0 in
     let '(new, frac_size) := main X dmin ((fnext, dnext) :: rest) between_points new (nint N 0%Z) in
     match last2 (sort_keys new) with
     | Some ((flow, dlow), (fnext, dnext)) =>
